@@ -265,18 +265,22 @@ class ServerWorld:
             rooms[ns] = {repr(n(r)): sorted((n(s), n(e)) for s, e in
                                             b.items())
                          for r, b in rs.items()}
-        cbs = {n(sid): sorted(k for k in d if k != 0)
-               for sid, d in m.callbacks.items()}
+        from . import introspect
+        cbs = {n(sid): sorted(d)
+               for sid, d in introspect.callbacks_of(m).items()}
         cbs_raw = {n(sid): sorted(repr(k) for k in d)
-                   for sid, d in m.callbacks.items()}
+                   for sid, d in (getattr(m, 'callbacks', None) or
+                                  {}).items() if isinstance(d, dict)}
         return {
             'rooms': rooms,
             'callbacks': cbs,
             'callbacks_keys': cbs_raw,
             'pending': {ns: sorted(n(s) for s in v)
-                        for ns, v in m.pending_disconnect.items()},
+                        for ns, v in introspect.pending_disconnect(
+                            m).items()},
             'environ': sorted(n(k) for k in self.sio.environ),
-            'binary': sorted(n(k) for k in self.sio._binary_packet),
+            'binary': sorted(n(k) for k in
+                             introspect.server_partial_packets(self.sio)),
         }
 
     def take_log(self):
